@@ -217,9 +217,11 @@ def extract(extract_v, driver_ml, exe_name, timeout=900):
         return exe
     base = os.path.join(CACHE, "ml")
     if os.path.isdir(base):
+        import time as _t
         ents = sorted((os.path.getmtime(os.path.join(base, e)), e) for e in os.listdir(base))
-        for _, e in ents[:-20]:
-            shutil.rmtree(os.path.join(base, e), ignore_errors=True)
+        for mt, e in ents[:-80]:
+            if _t.time() - mt > 3 * 3600:      # never purge young entries: other checks may be using them
+                shutil.rmtree(os.path.join(base, e), ignore_errors=True)
     shutil.rmtree(d, ignore_errors=True)
     os.makedirs(d)
     shutil.copy(src, os.path.join(d, extract_v))
